@@ -45,5 +45,11 @@ led["layout"] = {"sizeof(draco::DracoHeader)": 12, "offsetof(draco::DracoHeader,
                  "offsetof(draco::DracoHeader, encoder_method)": 8, "offsetof(draco::DracoHeader, flags)": 10}
 led["released_versions"] = [[1, 1], [1, 2], [1, 3], [2, 0], [2, 1], [2, 2], [2, 3]]
 led["dispatch"] = reader_tables(F)
+from verif import selectors as SEL
+from verif.core import load_table
+led["selectors"] = {}
+for p in load_table("selectors.json")["pairs"]:
+    cur = (led["constants"][p["version_constant"][0]] << 8) | led["constants"][p["version_constant"][1]]
+    led["selectors"][p["id"]] = SEL.render(SEL.selector_map(F, p["reader"], p["quantity"], cur, True))
 json.dump(led, open(os.path.join(os.path.dirname(os.path.dirname(os.path.abspath(__file__))), "rules", "format_ledger.json"), "w"), indent=1)
 print("enums", len(led["enums"]), "constants", len(led["constants"]))
